@@ -15,13 +15,13 @@ case "$pkg" in plush|plush_test) dir=. ;; *) dir=$(find . -type d -name "${pkg%_
 [ -n "$dir" ] || dir=.
 # without the patch: demo must pass
 cp $src/seeded_demo_test.go $dir/seeded_demo_test.go
-go test $RACE -vet=off -count=1 -run "Seeded|seeded" ./$dir > $work/demo0.log 2>&1; d0=$?
+go test $RACE -vet=off -count=1 -run "Seeded|seeded|Demo" ./$dir > $work/demo0.log 2>&1; d0=$?
 rm $dir/seeded_demo_test.go
 git apply $src/patch.diff 2> $work/apply.err || { echo "patch does not apply to current /repo"; cat $work/apply.err; exit 8; }
 go build ./... > $work/build.log 2>&1; b=$?
 go test -vet=off -count=1 ./... > $work/suite.log 2>&1; s=$?
 cp $src/seeded_demo_test.go $dir/seeded_demo_test.go
-go test $RACE -vet=off -count=1 -run "Seeded|seeded" ./$dir > $work/demo1.log 2>&1; d1=$?
+go test $RACE -vet=off -count=1 -run "Seeded|seeded|Demo" ./$dir > $work/demo1.log 2>&1; d1=$?
 rm $dir/seeded_demo_test.go
 echo "$id: build=$b suite=$s demo_without_patch=$d0 demo_with_patch=$d1"
 ok=no; [ $b -eq 0 ] && [ $s -eq 0 ] && [ $d0 -eq 0 ] && [ $d1 -ne 0 ] && ok=yes
